@@ -131,13 +131,60 @@ def _load(loop, path: str, via_context: bool):
         return "other:" + type(err).__name__, proj(gw)["nodes"]
 
 
-def roundtrip_case(loop, d: str, gw: Gateway, k: int) -> dict:
+def snapshot_case(loop, d: str, gw: Gateway, k: int) -> dict:
+    """save() runs as a task while the registry keeps changing (every node at every step of the loop):
+    the file must hold one of the registries that existed while the save ran, never a mixture."""
+    import time as _time
+    path = os.path.join(d, f"snap-{k}.json")
+    from aiomysensors.persistence import Persistence
+    pers = Persistence(gw.nodes, path)
+    for node in gw.nodes.values():      # generation 0 (the fields that change are small integers in every state)
+        node.heartbeat = 1000
+        node.battery_level = 0
+    case = {"kind": "snapshot", "states": [proj(gw)["nodes"]], "saveRes": "ok", "loadRes": "", "file": {"j": "null"}, "loaded": []}
+    task = loop.create_task(pers.save())
+    gen = 0
+    for _ in range(20000):
+        loop.run_until_complete(asyncio.sleep(0))
+        if task.done():
+            break
+        if gen < 24:
+            gen += 1
+            for node in gw.nodes.values():
+                node.heartbeat = 1000 + gen
+                node.battery_level = gen
+            case["states"].append(proj(gw)["nodes"])
+        else:
+            _time.sleep(0.0005)
+    try:
+        loop.run_until_complete(asyncio.wait_for(task, 10))
+    except BaseException as err:  # noqa: BLE001
+        case["saveRes"] = "other:" + type(err).__name__
+        return case
+    try:
+        with open(path, encoding="utf-8") as fil:
+            native, dup = parse_pairs(fil.read())
+        case["file"] = tag(native) if not dup else {"j": "null"}
+    except BaseException as err:  # noqa: BLE001
+        case["saveRes"] = "unreadable-file:" + type(err).__name__
+        return case
+    case["loadRes"], case["loaded"] = _load(loop, path, via_context=False)
+    os.unlink(path)
+    return case
+
+
+def roundtrip_case(loop, d: str, gw: Gateway, k: int, prior_text: str | None = None) -> dict:
     path = os.path.join(d, f"rt-{k}.json")
     gw.persistence = None
     from aiomysensors.persistence import Persistence
     pers = Persistence(gw.nodes, path)
     case = {"kind": "roundtrip", "reg": proj(gw)["nodes"], "saveRes": "ok", "loadRes": "", "file": {"j": "null"},
-            "loaded": [], "hasLegacy": False, "legacy": {"j": "null"}, "loadLegacyRes": "", "loadedLegacy": []}
+            "loaded": [], "hasLegacy": False, "legacy": {"j": "null"}, "loadLegacyRes": "", "loadedLegacy": [],
+            "prior_bytes": -1 if prior_text is None else len(prior_text.encode("utf-8"))}
+    if prior_text is not None:
+        # the file already holds an earlier (often longer) save: save replaces it entirely
+        with open(path, "w", encoding="utf-8") as fil:
+            fil.write(prior_text)
     try:
         loop.run_until_complete(pers.save())
     except BaseException as err:  # noqa: BLE001
@@ -151,6 +198,7 @@ def roundtrip_case(loop, d: str, gw: Gateway, k: int) -> dict:
     except BaseException as err:  # noqa: BLE001
         case["saveRes"] = "unreadable-file:" + type(err).__name__
         return case
+    case["text"] = text
     case["loadRes"], case["loaded"] = _load(loop, path, via_context=(k % 4 == 0))
     leg = to_legacy(native) if isinstance(native, dict) else None
     if leg is not None:
@@ -189,8 +237,16 @@ def _rt_worker(job):
     loop = asyncio.new_event_loop()
     d = tempfile.mkdtemp(prefix="verif-persist-")
     out = []
+    prior = None
     try:
         for k, item in enumerate(payload):
+            if kind == "snapshot":
+                gw = _new_gateway(os.path.join(d, "unused.json"))
+                gwdriver.build_registry(gw, _unsmall(item))
+                case = snapshot_case(loop, d, gw, base + k)
+                case["origin"] = {"direct": True, "mutated_while_saving": True}
+                out.append(case)
+                continue
             if kind == "history":
                 init, events = item
                 run = gwdriver.Run(init)
@@ -198,15 +254,19 @@ def _rt_worker(job):
                     for ev in events:
                         run.step(ev)
                     # the registry reached through the real handlers
-                    case = roundtrip_case(loop, d, run.gateway, base + k)
+                    case = roundtrip_case(loop, d, run.gateway, base + k, prior if k % 2 else None)
                     case["origin"] = {"init_ver": init["ver"], "events": [{a: b for a, b in e.items() if a in ("k", "n", "c", "cmd", "t", "p")} for e in events]}
                 finally:
                     run.close()
             else:
                 gw = _new_gateway(os.path.join(d, "unused.json"))
                 gwdriver.build_registry(gw, _unsmall(item))
-                case = roundtrip_case(loop, d, gw, base + k)
+                case = roundtrip_case(loop, d, gw, base + k, prior if k % 2 else None)
                 case["origin"] = {"direct": True}
+            # the longest file written so far is what the next odd case finds at its path
+            text = case.pop("text", None)
+            if text is not None and (prior is None or len(text) > len(prior)):
+                prior = text
             out.append(case)
     finally:
         loop.close()
@@ -298,6 +358,9 @@ def check_c13() -> int:
         direct = [random_registry(rnd) for _ in range(400 if tier == "quick" else 4000)]
         jobs = [("history", hist_jobs[i:i + 200], i) for i in range(0, len(hist_jobs), 200)]
         jobs += [("direct", direct[i:i + 200], 10 ** 6 + i) for i in range(0, len(direct), 200)]
+        multi = [r for r in (random_registry(rnd) for _ in range(600 if tier == "quick" else 6000)) if len(r) >= 2]
+        multi = multi[:120 if tier == "quick" else 1500]
+        jobs += [("snapshot", multi[i:i + 10], 2 * 10 ** 6 + i) for i in range(0, len(multi), 10)]
         ctx = multiprocessing.get_context("fork")
         with ctx.Pool(16) as pool:
             cases = [c for part in pool.map(_rt_worker, jobs) for c in part]
@@ -307,23 +370,32 @@ def check_c13() -> int:
         # distinct registries only
         seen, uniq = set(), []
         for c in cases:
-            key = json.dumps(c["reg"], sort_keys=True) + c["saveRes"] + c["loadRes"]
+            key = json.dumps(c.get("reg", c.get("states")), sort_keys=True) + c["saveRes"] + c["loadRes"] + str(c.get("prior_bytes", -1) >= 0)
             if key not in seen:
                 seen.add(key)
                 uniq.append(c)
         rep.cov["evaluations"] = len(cases)
-        rep.cov["distinct_nontrivial"] = len([c for c in uniq if c["reg"]])
+        rep.cov["distinct_nontrivial"] = len([c for c in uniq if c.get("reg") or c.get("states")])
+        rep.cov["saves_over_an_earlier_longer_file"] = len([c for c in uniq if c.get("prior_bytes", -1) >= 0])
+        rep.cov["saves_while_the_registry_changes"] = len([c for c in uniq if c["kind"] == "snapshot"])
         rep.cov["rule"] = "registries reached by TLC-emitted / random histories through the real handlers + random direct registries; distinct by registry; non-trivial = non-empty"
         rejected, states = _judge([{k: v for k, v in c.items() if k != "origin"} for c in uniq], workdir, 12)
         rep.cov["states"] += states
         rep.cov["transitions"] += states
         rep.add_traces(len(uniq))
-        rep.sample({"registry": uniq[len(uniq) // 2]["reg"], "origin": uniq[len(uniq) // 2]["origin"]})
+        rts = [c for c in uniq if c["kind"] == "roundtrip"]
+        rep.sample({"registry": rts[len(rts) // 2]["reg"], "origin": rts[len(rts) // 2]["origin"]})
         for i in rejected:
             c = uniq[i]
+            if c["kind"] == "snapshot":
+                rep.violation({"kind": "snapshot", "saveRes": c["saveRes"], "loadRes": c["loadRes"]},
+                              {"kind": "persist-snapshot", "case": c},
+                              f"save while the registry changes: {c['saveRes']}/{c['loadRes']}; the file holds none of the {len(c['states'])} "
+                              f"registries that existed while it ran: loaded {json.dumps(c['loaded'])[:300]}")
+                continue
             why = ("save/load failed: " + c["saveRes"] + "/" + c["loadRes"]) if (c["saveRes"] != "ok" or c["loadRes"] != "ok") else \
                   ("loaded registry differs" if c["loaded"] != _norb(c["reg"]) else "file or legacy form does not denote the registry / not loadable")
-            rep.violation({"saveRes": c["saveRes"], "loadRes": c["loadRes"], "legacyRes": c["loadLegacyRes"]},
+            rep.violation({"saveRes": c["saveRes"], "loadRes": c["loadRes"], "legacyRes": c["loadLegacyRes"], "prior": c.get("prior_bytes", -1) >= 0},
                           {"kind": "persist-roundtrip", "case": c},
                           f"persistence round trip: {why}; registry {json.dumps(c['reg'])[:300]} origin {json.dumps(c['origin'])[:300]}")
         rep.assumptions += ["integers beyond 2^30 are carried as opaque tokens through TLC", "the legacy form of a registry is produced by the harness (key renames, null for empty sketch name); Persist.tla DenoteLegacy is the oracle for what it means"]
@@ -491,10 +563,19 @@ def replay(doc: dict) -> int:
             content = bytes.fromhex(c["content_hex"]) if c.get("content_hex") is not None else None
             case = _load_worker(([(c["class"], content, c["file"] if c["class"] == "json" else {"j": "null"})], 0))[0]
             print("load ->", case["res"], "loaded:", json.dumps(case["loaded"])[:300])
+        elif doc["kind"] == "persist-snapshot":
+            gw = _new_gateway(os.path.join(d, "x.json"))
+            gwdriver.build_registry(gw, c["states"][0])
+            case = snapshot_case(loop, d, gw, 0)
+            print("save ->", case["saveRes"], "load ->", case["loadRes"], "is one of the states:", case["loaded"] in [_norb(x) for x in case["states"]])
         else:
             gw = _new_gateway(os.path.join(d, "x.json"))
             gwdriver.build_registry(gw, c["reg"])
-            case = roundtrip_case(loop, d, gw, 0)
+            prior = None
+            if c.get("prior_bytes", -1) >= 0:
+                prior = json.dumps({str(i): {"padding": "x" * 50} for i in range(max(1, c["prior_bytes"] // 60))})
+            case = roundtrip_case(loop, d, gw, 0, prior)
+            case.pop("text", None)
             print("save ->", case["saveRes"], "load ->", case["loadRes"], "legacy load ->", case["loadLegacyRes"] or "-",
                   "native equal:", case["loaded"] == _norb(c["reg"]), "legacy equal:", (not case["hasLegacy"]) or case["loadedLegacy"] == _norb(c["reg"]))
         rejected, _ = _judge([{k: v for k, v in case.items() if k not in ("content_preview", "content_hex", "via", "origin")}], work, 1)
